@@ -192,5 +192,11 @@ def run(facts, tier):
             res.add(Finding("R07-1", "document|" + prop, "node-sets returned by query are not guaranteed to be %s (see C07)" % prop, None, None, {}))
     c08.r08_3(facts, res)
     c08.r08_4(facts, res)
+    # operators and the function library are part of "the value XPath 1.0 prescribes": same rules as C09
+    from props import c09
+    table = c09.r09_1(facts, res)
+    c09.r09_2(facts, res)
+    c09.r09_2b(facts, res, table)
+    c09.r09_3(facts, res)
     res.functions_analysed = len(AXIS_SHAPE) + 4
     return res
